@@ -695,6 +695,34 @@ func runQuery(w *harness.W, r gen.R) {
 	}
 	if n != qc.Keys {
 		w.Violation("query:concurrent-keys-lost", "keys typed while a query was outstanding were lost", qc, fmt.Sprint(n), fmt.Sprint(qc.Keys))
+		return
+	}
+	// the request is over (answered or given up): keys whose encoding looks
+	// like its reply (CSI 1;2 R = Shift+F3) are keys again
+	if qc.Query == "cursor" {
+		if qc.Timing == "late" {
+			verifhook.DisarmAll()
+		}
+		sess.Con.With(func() { sess.Con.ReplyFilter = nil })
+		sess.Con.Inject([]byte("a\x1b[1;2R\x1b[1;5Rz"))
+		evs, ok := sess.Sync()
+		if !ok {
+			wedged = true
+			w.Inconclusive("query-sync-timeout-without-corroboration")
+			return
+		}
+		var got []string
+		for _, ev := range evs {
+			if k, isKey := ev.(vaxis.Key); isKey && k.Keycode < 0xE000 || isKey && k.Keycode > 0xF8FF {
+				got = append(got, fmt.Sprintf("%d/%d", k.Keycode, k.Modifiers))
+			}
+		}
+		wantKeys := []string{fmt.Sprintf("%d/%d", 'a', 0), fmt.Sprintf("%d/%d", vaxis.KeyF03, vaxis.ModShift), fmt.Sprintf("%d/%d", vaxis.KeyF03, vaxis.ModCtrl), fmt.Sprintf("%d/%d", 'z', 0)}
+		w.Count("keys_after_finished_query", 1)
+		if strings.Join(got, " ") != strings.Join(wantKeys, " ") {
+			w.Violation("query:cursor:"+qc.Timing+":later-key-taken-for-reply", "after the cursor-position request was over, modified F3 keys (CSI 1;2 R, CSI 1;5 R) were not delivered as keys", qc, strings.Join(got, " "), strings.Join(wantKeys, " "))
+			return
+		}
 	}
 	w.Sample(qc)
 }
